@@ -1,8 +1,5 @@
 package pgmini
 
-import (
-	"sort"
-)
 
 // resultSet is the internal result of a query.
 type resultSet struct {
@@ -41,6 +38,13 @@ func (s *session) execStmt(st Stmt, outer *scope) (*resultSet, error) {
 }
 
 func (s *session) execSelect(sel *Select, outer *scope) (*resultSet, error) {
+	if sel.With != nil {
+		env, err := s.bindCTEs(sel, outer)
+		if err != nil {
+			return nil, err
+		}
+		outer = env
+	}
 	res, err := s.execCore(sel, outer)
 	if err != nil {
 		return nil, err
@@ -56,141 +60,6 @@ func (s *session) execSelect(sel *Select, outer *scope) (*resultSet, error) {
 		res.rows = append(res.rows, more.rows...)
 	}
 	return res, nil
-}
-
-// fromResult is an evaluated FROM item: its bindings and, per joined row, one row slice per binding.
-type fromResult struct {
-	binds []*binding
-	rows  [][][]Value
-}
-
-func (s *session) evalFrom(item FromItem, outer *scope, siblings []*binding) (*fromResult, error) {
-	single := func(b *binding, rows [][]Value) *fromResult {
-		fr := &fromResult{binds: []*binding{b}}
-		for _, r := range rows {
-			fr.rows = append(fr.rows, [][]Value{r})
-		}
-		return fr
-	}
-	switch x := item.(type) {
-	case *TableRef:
-		t, _, err := s.lookupTableSchema(x.Schema, x.Name)
-		if err != nil {
-			return nil, err
-		}
-		b := &binding{alias: x.Alias, rowType: t.def.name}
-		if b.alias == "" {
-			b.alias = x.Name
-		}
-		for _, c := range t.def.cols {
-			b.cols = append(b.cols, c.Name)
-		}
-		return single(b, t.rows), nil
-	case *SubqueryRef:
-		if x.Lateral {
-			return nil, unsupported("LATERAL")
-		}
-		res, err := s.execSelect(x.Sel, outer)
-		if err != nil {
-			return nil, err
-		}
-		return single(&binding{alias: x.Alias, cols: res.cols}, res.rows), nil
-	case *FuncRef:
-		for _, arg := range x.Call.Args { // a function in FROM may reference earlier FROM items: implicit LATERAL
-			var lateral string
-			walkExpr(arg, func(n Expr) bool {
-				if id, ok := n.(*Ident); ok {
-					for _, b := range siblings {
-						for _, c := range b.cols {
-							if b.alias == id.Parts[0] || (len(id.Parts) == 1 && c == id.Parts[0] && outer.findVar(c) == nil) {
-								lateral = id.Parts[0]
-							}
-						}
-					}
-				}
-				return true
-			})
-			if lateral != "" {
-				return nil, unsupported("LATERAL reference to %q from a function in FROM", lateral)
-			}
-		}
-		var res *resultSet
-		scalar := true
-		if s.isSRF(x.Call) {
-			var err error
-			if res, scalar, err = s.evalSRF(x.Call, outer); err != nil {
-				return nil, err
-			}
-		} else {
-			v, err := s.evalCall(x.Call, outer)
-			if err != nil {
-				return nil, err
-			}
-			res = &resultSet{cols: []string{x.Call.Name}, rows: [][]Value{{v}}}
-			if c, ok := v.(Composite); ok && c.Type != "" {
-				fields, _ := s.compositeFields(c.Type)
-				res, scalar = &resultSet{rows: [][]Value{c.Fields}, rowType: c.Type}, false
-				for _, f := range fields {
-					res.cols = append(res.cols, f.Name)
-				}
-			}
-		}
-		b := &binding{alias: x.Alias, cols: append([]string(nil), res.cols...), rowType: res.rowType, scalar: scalar}
-		if b.alias == "" {
-			b.alias = x.Call.Name
-		} else if scalar && (!builtinSRFs[x.Call.Name] || x.Call.Name == "unnest") {
-			b.cols[0] = x.Alias // a scalar function column takes the alias; OUT-parameter names (value) stay
-		}
-		if len(x.ColAliases) > len(b.cols) {
-			return nil, pgError("table %q has %d columns available but %d columns specified", b.alias, len(b.cols), len(x.ColAliases))
-		}
-		copy(b.cols, x.ColAliases)
-		return single(b, res.rows), nil
-	case *JoinRef:
-		left, err := s.evalFrom(x.Left, outer, siblings)
-		if err != nil {
-			return nil, err
-		}
-		right, err := s.evalFrom(x.Right, outer, append(append([]*binding(nil), siblings...), left.binds...))
-		if err != nil {
-			return nil, err
-		}
-		out := &fromResult{binds: append(append([]*binding(nil), left.binds...), right.binds...)}
-		sc := &scope{outer: outer, binds: out.binds}
-		nulls := make([][]Value, len(right.binds))
-		for i, b := range right.binds {
-			nulls[i] = make([]Value, len(b.cols))
-		}
-		for _, l := range left.rows {
-			matched := false
-			for _, r := range right.rows {
-				joined := append(append([][]Value(nil), l...), r...)
-				if x.On != nil {
-					setRows(out.binds, joined)
-					ok, err := s.isTrue(x.On, sc)
-					if err != nil {
-						return nil, err
-					}
-					if !ok {
-						continue
-					}
-				}
-				matched = true
-				out.rows = append(out.rows, joined)
-			}
-			if !matched && x.Kind == "left" {
-				out.rows = append(out.rows, append(append([][]Value(nil), l...), nulls...))
-			}
-		}
-		return out, nil
-	}
-	return nil, unsupported("FROM item %s", describe(item))
-}
-
-func setRows(binds []*binding, joined [][]Value) {
-	for i, b := range binds {
-		b.row = joined[i]
-	}
 }
 
 // walkExpr visits e and its sub-expressions (not the bodies of subqueries); visit returns false to skip the children.
@@ -273,305 +142,3 @@ func exprName(e Expr) string {
 	return "?column?"
 }
 
-// execCore evaluates one SELECT arm: FROM, WHERE, aggregates / select list, ORDER BY, OFFSET, LIMIT.
-func (s *session) execCore(sel *Select, outer *scope) (*resultSet, error) {
-	if sel.With != nil || sel.DistinctOn != nil || sel.GroupBy != nil { // phase-2 guard, removed once executed
-		return nil, unsupported("WITH / DISTINCT ON / GROUP BY")
-	}
-	q := &scope{outer: outer, queryLevel: true}
-	joined := [][][]Value{{}} // no FROM: a single empty row
-	for _, item := range sel.From {
-		fr, err := s.evalFrom(item, outer, q.binds)
-		if err != nil {
-			return nil, err
-		}
-		for _, nb := range fr.binds {
-			for _, b := range q.binds {
-				if b.alias == nb.alias {
-					return nil, pgError("table name %q specified more than once", nb.alias)
-				}
-			}
-		}
-		q.binds = append(q.binds, fr.binds...)
-		var product [][][]Value
-		for _, l := range joined {
-			for _, r := range fr.rows {
-				product = append(product, append(append([][]Value(nil), l...), r...))
-			}
-		}
-		joined = product
-	}
-	if sel.Where != nil {
-		kept := joined[:0:0]
-		for _, jr := range joined {
-			setRows(q.binds, jr)
-			ok, err := s.isTrue(sel.Where, q)
-			if err != nil {
-				return nil, err
-			}
-			if ok {
-				kept = append(kept, jr)
-			}
-		}
-		joined = kept
-	}
-
-	// output columns
-	res := &resultSet{}
-	type outCol struct {
-		expr Expr     // nil for a star column
-		bind *binding // star column source
-		idx  int
-		srf  bool
-	}
-	var outs []outCol
-	for _, it := range sel.Items {
-		if !it.Star {
-			name := it.Alias
-			if name == "" {
-				name = exprName(it.Expr)
-			}
-			fc, isCall := it.Expr.(*FuncCall)
-			outs = append(outs, outCol{expr: it.Expr, srf: isCall && s.isSRF(fc)})
-			res.cols = append(res.cols, name)
-			continue
-		}
-		found := false
-		for _, b := range q.binds {
-			if it.Qualifier != "" && b.alias != it.Qualifier {
-				continue
-			}
-			found = true
-			for i, c := range b.cols {
-				outs = append(outs, outCol{bind: b, idx: i})
-				res.cols = append(res.cols, c)
-			}
-		}
-		if !found {
-			if it.Qualifier == "" {
-				return nil, pgError("SELECT * with no tables specified is not valid")
-			}
-			return nil, pgError("missing FROM-clause entry for table %q", it.Qualifier)
-		}
-	}
-
-	// aggregate query (no GROUP BY): exactly one output row
-	var aggCalls []*FuncCall
-	for _, it := range sel.Items {
-		s.collectAggs(it.Expr, &aggCalls)
-	}
-	for _, k := range sel.OrderBy {
-		s.collectAggs(k.Expr, &aggCalls)
-	}
-	type sortRow struct{ out, keys []Value }
-	var produced []sortRow
-	if len(aggCalls) > 0 {
-		q.aggs = map[*FuncCall]Value{}
-		for _, fc := range aggCalls {
-			if len(fc.Args) > 1 || (len(fc.Args) == 0) != fc.Star {
-				return nil, pgError("function %s with %d arguments does not exist", fc.Name, len(fc.Args))
-			}
-			inputs := make([]Value, 0, len(joined))
-			for _, jr := range joined {
-				setRows(q.binds, jr)
-				var v Value
-				if !fc.Star {
-					var err error
-					if v, err = s.eval(fc.Args[0], q); err != nil {
-						return nil, err
-					}
-				}
-				inputs = append(inputs, v)
-			}
-			v, err := s.aggregate(fc, inputs)
-			if err != nil {
-				return nil, err
-			}
-			q.aggs[fc] = v
-		}
-		q.grouped = true
-		row := make([]Value, len(outs))
-		for i, oc := range outs {
-			if oc.expr == nil {
-				return nil, pgError("column %q must appear in the GROUP BY clause or be used in an aggregate function", res.cols[i])
-			}
-			if oc.srf {
-				return nil, unsupported("set-returning function in an aggregate query")
-			}
-			var err error
-			if row[i], err = s.eval(oc.expr, q); err != nil {
-				return nil, err
-			}
-		}
-		produced = []sortRow{{out: row}}
-	} else {
-		for n, jr := range joined {
-			setRows(q.binds, jr)
-			q.rowNumber = int64(n + 1)
-			row := make([]Value, len(outs))
-			var sets []*resultSet // set-returning select items, expanded in lockstep
-			var setCols []int
-			for i, oc := range outs {
-				var err error
-				switch {
-				case oc.expr == nil:
-					row[i] = oc.bind.row[oc.idx]
-				case oc.srf:
-					set, scalar, err := s.evalSRF(oc.expr.(*FuncCall), q)
-					if err != nil {
-						return nil, err
-					}
-					if !scalar {
-						return nil, unsupported("composite set-returning function in a select list")
-					}
-					sets, setCols = append(sets, set), append(setCols, i)
-				default:
-					if row[i], err = s.eval(oc.expr, q); err != nil {
-						return nil, err
-					}
-				}
-			}
-			keys, err := s.orderKeys(sel, q, res.cols, row, len(sets) > 0)
-			if err != nil {
-				return nil, err
-			}
-			if len(sets) == 0 {
-				produced = append(produced, sortRow{out: row, keys: keys})
-				continue
-			}
-			longest := 0
-			for _, set := range sets {
-				if len(set.rows) > longest {
-					longest = len(set.rows)
-				}
-			}
-			for k := 0; k < longest; k++ {
-				expanded := append([]Value(nil), row...)
-				for j, set := range sets {
-					if k < len(set.rows) {
-						expanded[setCols[j]] = set.rows[k][0]
-					}
-				}
-				produced = append(produced, sortRow{out: expanded, keys: keys})
-			}
-		}
-		if len(sel.OrderBy) > 0 {
-			var sortErr error
-			sort.SliceStable(produced, func(i, j int) bool {
-				for k, key := range sel.OrderBy {
-					a, b := produced[i].keys[k], produced[j].keys[k]
-					c := 0
-					switch {
-					case a == nil && b == nil:
-					case a == nil:
-						c = 1 // NULL sorts as larger than any value
-					case b == nil:
-						c = -1
-					default:
-						var err error
-						if c, err = compareValues(a, b); err != nil && sortErr == nil {
-							sortErr = err
-						}
-					}
-					if key.Desc {
-						c = -c
-					}
-					if c != 0 {
-						return c < 0
-					}
-				}
-				return false
-			})
-			if sortErr != nil {
-				return nil, sortErr
-			}
-		}
-	}
-
-	// OFFSET / LIMIT
-	bound := func(e Expr, what string) (int, bool, error) {
-		if e == nil {
-			return 0, false, nil
-		}
-		v, err := s.eval(e, outer)
-		if err != nil || v == nil {
-			return 0, false, err
-		}
-		if lit, isLit := e.(*StringLit); isLit {
-			if v, err = s.cast(lit.Val, Type{Name: "bigint"}, castIO); err != nil {
-				return 0, false, err
-			}
-		}
-		if !isNumber(v) {
-			return 0, false, pgError("argument of %s must be type bigint, not type %s", what, typeNameOf(v))
-		}
-		n := toBig(v)
-		if n.Sign() < 0 {
-			return 0, false, pgError("%s must not be negative", what)
-		}
-		if !n.IsInt64() || n.Int64() > int64(len(produced)) {
-			return len(produced), true, nil
-		}
-		return int(n.Int64()), true, nil
-	}
-	if off, ok, err := bound(sel.Offset, "OFFSET"); err != nil {
-		return nil, err
-	} else if ok {
-		produced = produced[off:]
-	}
-	if lim, ok, err := bound(sel.Limit, "LIMIT"); err != nil {
-		return nil, err
-	} else if ok && lim < len(produced) {
-		produced = produced[:lim]
-	}
-	for _, pr := range produced {
-		res.rows = append(res.rows, pr.out)
-	}
-	return res, nil
-}
-
-// orderKeys evaluates the ORDER BY keys for the current row: a bare name matching exactly one output column (or an
-// output position) refers to the output; everything else is an expression over the input columns.
-func (s *session) orderKeys(sel *Select, q *scope, cols []string, row []Value, hasSets bool) ([]Value, error) {
-	if len(sel.OrderBy) == 0 {
-		return nil, nil
-	}
-	keys := make([]Value, len(sel.OrderBy))
-	for i, k := range sel.OrderBy {
-		if id, ok := k.Expr.(*Ident); ok && len(id.Parts) == 1 {
-			matches, at := 0, 0
-			for c, name := range cols {
-				if name == id.Parts[0] {
-					matches++
-					at = c
-				}
-			}
-			if matches > 1 {
-				return nil, unsupported("ORDER BY name %q matching several output columns", id.Parts[0])
-			}
-			if matches == 1 {
-				if hasSets {
-					return nil, unsupported("ORDER BY over a set-returning select list")
-				}
-				keys[i] = row[at]
-				continue
-			}
-		}
-		if lit, ok := k.Expr.(*Literal); ok {
-			n, isInt := lit.Val.(int64)
-			if !isInt || n < 1 || int(n) > len(row) {
-				return nil, pgError("ORDER BY position is not in select list")
-			}
-			keys[i] = row[n-1]
-			continue
-		}
-		if _, ok := k.Expr.(*StringLit); ok {
-			return nil, unsupported("ORDER BY a constant")
-		}
-		var err error
-		if keys[i], err = s.eval(k.Expr, q); err != nil {
-			return nil, err
-		}
-	}
-	return keys, nil
-}
